@@ -18,6 +18,7 @@ def init():
         return
     from absl import flags
 
+    os.environ["SOURCE_DATE_EPOCH"] = "1600000000"
     if not flags.FLAGS.is_parsed():
         flags.FLAGS(["vmc"])
     logging.getLogger().setLevel(logging.ERROR)
@@ -105,3 +106,32 @@ def build_direct(glyphs, over, names=None, bitmaps=None, parse=None):
             os.unlink(tmp)
     font, data = reload(tt)
     return cfg, font, data
+
+
+def import_step(modname):
+    """Import a worker-step module (nanoemoji.write_glyphmap, ...) next to nanoemoji.config in
+    one process: the steps re-define absl flags that config already defines (they are separate
+    processes in the real graph), so duplicate definitions are ignored while importing."""
+    import importlib
+    import sys
+    from absl import flags
+
+    if modname in sys.modules:
+        return sys.modules[modname]
+    saved = {}
+    for fn in ("DEFINE_string", "DEFINE_bool", "DEFINE_integer", "DEFINE_float", "DEFINE_enum", "DEFINE_list"):
+        orig = getattr(flags, fn)
+        saved[fn] = orig
+
+        def safe(*a, _orig=orig, **k):
+            try:
+                return _orig(*a, **k)
+            except flags.DuplicateFlagError:
+                return None
+
+        setattr(flags, fn, safe)
+    try:
+        return importlib.import_module(modname)
+    finally:
+        for fn, orig in saved.items():
+            setattr(flags, fn, orig)
